@@ -224,14 +224,6 @@ def domain(ctx, focus):
     if True:
         ctexts = ["4x + 2y^3", "abs(x)", "absolute(x) + 1", "2abs(y) - sgn(x)", "4 +"]
         cops = [["P", i] for i in range(len(ctexts))] + [["T", i] for i in range(len(ctexts))] + [["C", None], ["S", 1], ["S", 2], ["S", 3]]
-        # histories with a shallow-copied twin parser / edits of the cursor attributes instead of a reconfiguration
-        kops = [["P", i] for i in range(len(ctexts))] + [["T", i] for i in range(len(ctexts))] + [["C", None], ["K", None], ["MC", None]]
-        for n in range(1, 4):
-            for h in itertools.product(kops, repeat=n):
-                if not any(o in ("K", "MC") for o, _ in h) or (n == 3 and rng.random() < (0.8 if ctx.quick else 0.3)):
-                    continue
-                cases.append({"texts": ctexts, "history": list(h) + [["P", i] for i in range(len(ctexts))] + [["T", i] for i in range(len(ctexts))] + [["P", i] for i in range(len(ctexts))], "noquery": True})
-                nconf += 1
         cquery = [["P", i] for i in range(len(ctexts))] + [["T", i] for i in range(len(ctexts))] + [["FP", i] for i in range(len(ctexts))] + [["FT", i] for i in range(len(ctexts))]
         for n in range(1, 4 if focus != "sticky" else 3):
             for h in itertools.product(cops, repeat=n):
@@ -326,7 +318,11 @@ def run_family(ctx, cases, prop, focus="history"):
     res.rule += " | non-trivial = distinct histories with at least one call before the queries"
     res.samples = [{"history": cases[len(cases) // 3]["history"][:6], "steps": traces[len(cases) // 3]["steps"][:6], "values": traces[len(cases) // 3]["vals_sample"]}]
     res.extra["validator_pobj"] = st
+    res.extra["reconfiguration_histories_answering_unlike_a_fresh_parser_with_that_configuration"] = sum(1 for cl in fails.values() if any(c.startswith("note_") for c in cl))
     for eid, cl in sorted(fails.items()):
+        cl = [c for c in cl if not c.startswith("note_")]          # reconfiguration of the public tokenizer is outside the statements of C10 / C12: reported, never alarmed
+        if not cl:
+            continue
         c = cases[eid - 1]
         # signature: clause set + the operations (without text identities) of the shortest prefix involved
         kinds = "".join(op for op, _ in c["history"][: max(0, len(c["history"]) - 3 * len(c["texts"]))])[:6] if len(c["history"]) < 40 else "random"
